@@ -7,9 +7,15 @@ import time
 
 
 class Engine:
-    def __init__(self, binary):
+    def __init__(self, binary, delays=None):
+        """delays: {'START'|'PRINTED'|'TAIL': ms} — scheduling hook H3 (holds the search thread at that step)"""
+        env = dict(os.environ)
+        for k in ("START", "PRINTED", "TAIL"):
+            env.pop(f"TCHERAN_VERIF_DELAY_{k}_MS", None)
+        for k, v in (delays or {}).items():
+            env[f"TCHERAN_VERIF_DELAY_{k}_MS"] = str(v)
         self.p = subprocess.Popen([binary], stdin=subprocess.PIPE, stdout=subprocess.PIPE, stderr=subprocess.DEVNULL,
-                                  text=True, bufsize=1)
+                                  text=True, bufsize=1, env=env)
         self.q = queue.Queue()
         self.lines = []
         self.t = threading.Thread(target=self._reader, daemon=True)
